@@ -280,10 +280,13 @@ func (s *Session) onAnnounce(resp *Response, req *Request) {
 		return
 	}
 
+	// 被拒绝的 ANNOUNCE 不能改变会话已有的状态(url/path/sdp)
+	oldURL, oldPath, oldRawSdp, oldSdp := s.url, s.path, s.rawSdp, s.sdp
 	s.url = req.URL
 	s.path = utils.CanonicalPath(req.URL.Path)
 
 	if !s.checkPermission(auth.PushRight) {
+		s.url, s.path = oldURL, oldPath
 		resp.StatusCode = StatusForbidden
 		return
 	}
@@ -291,6 +294,7 @@ func (s *Session) onAnnounce(resp *Response, req *Request) {
 	// 从流中取 sdp
 	err := s.parseSdp(req.Body)
 	if err != nil {
+		s.url, s.path, s.rawSdp, s.sdp = oldURL, oldPath, oldRawSdp, oldSdp
 		resp.StatusCode = StatusBadRequest
 		return
 	}
